@@ -1068,7 +1068,14 @@ func (e *absEnv) convert(t *ssa.Convert, x aval) aval {
 		case aint:
 			return astr(string(rune(v)))
 		case astrv:
-			return v // a byte taken from an abstract string
+			// a byte taken from an abstract string: string(b) is the UTF-8 encoding of the code point b — the byte
+			// itself only below 0x80.  For a byte that is no particular character the result is a different symbol
+			// (the same one for the same byte), so string(s[i]) and s[i:i+1] are not interchangeable as keys.
+			if len(v.atoms) == 1 && v.atoms[0].sym != "" && v.atoms[0].byte1 {
+				a := v.atoms[0]
+				return astrv{[]atom{{sym: "utf8(" + a.sym + ")", lower: a.lower, cv: a.cv}}}
+			}
+			return v
 		}
 		return aunk{"string(" + describeAval(x) + ")"}
 	case isStrT(from) && isBytes(to):
